@@ -841,7 +841,9 @@ def run(rep, tier, replay):
     type_states = r.distinct
 
     # (b) collections
-    rc, colls = coll_cases("Values_colls_t.cfg" if thorough else "Values_colls_q.cfg", coverage=thorough, timeout=1800)
+    # one worker: breadth-first order is then deterministic, so the operation sequence printed for a state (and with
+    # it the generated puppet source and its cache key) is the same on every run
+    rc, colls = coll_cases("Values_colls_t.cfg" if thorough else "Values_colls_q.cfg", workers=1, coverage=thorough, timeout=1800)
     tlc_states, tlc_trans = tlc_states + rc.distinct, tlc_trans + rc.generated
     coll_states = rc.distinct
     if thorough:
